@@ -261,6 +261,11 @@ impl Interp {
                 let Some(n) = kv(t, "size").and_then(|x| x.parse().ok()) else { return "bad-op".into() };
                 w.link_reset_behind_answer(n)
             }
+            ["e2e.udpfire", name, ..] => {
+                let Some(Obj::World(w)) = self.objs.get(*name) else { return "bad-op".into() };
+                let Some(n) = kv(t, "n").and_then(|x| x.parse().ok()) else { return "bad-op".into() };
+                w.udp_fire(n)
+            }
             ["e2e.cut", name] => {
                 let Some(Obj::World(w)) = self.objs.get(*name) else { return "bad-op".into() };
                 w.cut()
